@@ -318,10 +318,11 @@ pub proof fn lemma_distinct_perm(t1: Seq<Transaction>, t2: Seq<Transaction>)
         assert(t1[a].inputs@[k] != t1[b].inputs@[k2]);
     }
 }
-//@LEMMA C03 lemma_batch_core_perm what apply_tx_batch_impl guarantees for a batch (acceptance conditions and resulting state) holds for every duplicate-free ordering of the same transactions
-pub proof fn lemma_batch_core_perm<C: ContentAddrStore>(s: UnsealedState<C>, t1: Seq<Transaction>, t2: Seq<Transaction>, r: UnsealedState<C>, rel: Map<CoinID, CoinDataHeight>, ns: Map<TxHash, StakeDoc>)
+// lemma_batch_core_perm is proved in three parts (acceptance / resulting state / faucets, stakes, DOSC speed): as one query it sat at 94 % of the
+// resource limit and an unrelated addition to the prelude pushed it over (a proof must not be that brittle)
+proof fn lemma_bcp_accept<C: ContentAddrStore>(s: UnsealedState<C>, t1: Seq<Transaction>, t2: Seq<Transaction>, r: UnsealedState<C>, rel: Map<CoinID, CoinDataHeight>, ns: Map<TxHash, StakeDoc>)
     requires t1.no_duplicates(), t2.no_duplicates(), forall|x: Transaction| t1.contains(x) <==> t2.contains(x), batch_core_with(s, t1, r, rel, ns)
-    ensures batch_core_with(s, t2, r, rel, ns)
+    ensures rel_of(s, t2, rel), inputs_distinct(t2), forall|t: int| 0 <= t < t2.len() ==> tx_accepted(s, rel, ns, #[trigger] t2[t])
 {
     let n1 = t1.len() as int; let n2 = t2.len() as int;
     assert forall|id: CoinID| (kept_in(t1, n1, id) <==> kept_in(t2, n2, id)) && (spent_by(t1, n1, id) <==> spent_by(t2, n2, id)) by {
@@ -334,12 +335,32 @@ pub proof fn lemma_batch_core_perm<C: ContentAddrStore>(s: UnsealedState<C>, t1:
     }
     lemma_distinct_perm(t1, t2);
     assert forall|t: int| 0 <= t < t2.len() implies tx_accepted(s, rel, ns, #[trigger] t2[t]) by { assert(t2.contains(t2[t])); let a = choose|a: int| 0 <= a < t1.len() && t1[a] == t2[t]; assert(tx_accepted(s, rel, ns, t1[a])); }
+}
+proof fn lemma_bcp_result<C: ContentAddrStore>(s: UnsealedState<C>, t1: Seq<Transaction>, t2: Seq<Transaction>, r: UnsealedState<C>, rel: Map<CoinID, CoinDataHeight>, ns: Map<TxHash, StakeDoc>)
+    requires t1.no_duplicates(), t2.no_duplicates(), forall|x: Transaction| t1.contains(x) <==> t2.contains(x), batch_core_with(s, t1, r, rel, ns)
+    ensures batch_coins(s.coins@.coins, r.coins@.coins, t2, rel),
+            forall|h: TxHash| #[trigger] r.transactions@.contains_key(h) <==> (s.transactions@.contains_key(h) || in_batch(t2, t2.len() as int, h)),
+            r.fee_pool.0 as int == s.fee_pool.0 + fsum(t2, min_fee_of(s.fee_multiplier)) && r.tips.0 as int == s.tips.0 + fsum(t2, tip_of(s.fee_multiplier))
+{
+    let n1 = t1.len() as int; let n2 = t2.len() as int;
+    assert forall|id: CoinID| (kept_in(t1, n1, id) <==> kept_in(t2, n2, id)) && (spent_by(t1, n1, id) <==> spent_by(t2, n2, id)) by {
+        lemma_kept_perm(t1, t2, id); lemma_kept_perm(t2, t1, id); lemma_created_perm(t1, t2, rel, id); lemma_created_perm(t2, t1, rel, id);
+    }
     lemma_batch_perm(s.coins@.coins, r.coins@.coins, t1, t2, rel);
     assert forall|h: TxHash| in_batch(t1, n1, h) <==> in_batch(t2, n2, h) by {
         if in_batch(t1, n1, h) { let q = choose|q: int| 0 <= q < n1 && h == spec_txhash(#[trigger] t1[q]); assert(t1.contains(t1[q])); let u = choose|u: int| 0 <= u < t2.len() && t2[u] == t1[q]; assert(0 <= u < n2 && h == spec_txhash(t2[u])); }
         if in_batch(t2, n2, h) { let q = choose|q: int| 0 <= q < n2 && h == spec_txhash(#[trigger] t2[q]); assert(t2.contains(t2[q])); let u = choose|u: int| 0 <= u < t1.len() && t1[u] == t2[q]; assert(0 <= u < n1 && h == spec_txhash(t1[u])); }
     }
     lemma_fees_perm(t1, t2, s.fee_multiplier);
+}
+proof fn lemma_bcp_rest<C: ContentAddrStore>(s: UnsealedState<C>, t1: Seq<Transaction>, t2: Seq<Transaction>, r: UnsealedState<C>, rel: Map<CoinID, CoinDataHeight>, ns: Map<TxHash, StakeDoc>)
+    requires t1.no_duplicates(), t2.no_duplicates(), forall|x: Transaction| t1.contains(x) <==> t2.contains(x), batch_core_with(s, t1, r, rel, ns)
+    ensures forall|q: int| 0 <= q < t2.len() && (#[trigger] t2[q]).kind == TxKind::Faucet ==> !(s.network == NetID::Mainnet && !is_grandfathered(spec_txhash(t2[q])))
+                && (!is_grandfathered(spec_txhash(t2[q])) ==> !s.coins@.coins.contains_key(spec_marker(spec_txhash(t2[q])))),
+            (!stake_legacy(s.network, s.height) ==> stakes_of(t2, t2.len() as int, (s.height.0 / 200000) as u64, ns)) && (stake_legacy(s.network, s.height) ==> ns == Map::<TxHash, StakeDoc>::empty()),
+            forall|t: int| 0 <= t < t2.len() && (#[trigger] t2[t]).kind == TxKind::DoscMint ==> dosc_le(s, rel, t2[t], r.dosc_speed),
+            r.dosc_speed == s.dosc_speed || exists|t: int| 0 <= t < t2.len() && (#[trigger] t2[t]).kind == TxKind::DoscMint && doscmint_ok(s, rel, t2[t], r.dosc_speed)
+{
     assert forall|q: int| 0 <= q < t2.len() && (#[trigger] t2[q]).kind == TxKind::Faucet implies !(s.network == NetID::Mainnet && !is_grandfathered(spec_txhash(t2[q])))
             && (!is_grandfathered(spec_txhash(t2[q])) ==> !s.coins@.coins.contains_key(spec_marker(spec_txhash(t2[q])))) by {
         assert(t2.contains(t2[q])); let a = choose|a: int| 0 <= a < t1.len() && t1[a] == t2[q]; assert(t1[a].kind == TxKind::Faucet);
@@ -353,6 +374,13 @@ pub proof fn lemma_batch_core_perm<C: ContentAddrStore>(s: UnsealedState<C>, t1:
         assert(t1.contains(t1[t])); let u = choose|u: int| 0 <= u < t2.len() && t2[u] == t1[t];
         assert(0 <= u < t2.len() && t2[u].kind == TxKind::DoscMint && doscmint_ok(s, rel, t2[u], r.dosc_speed));
     }
+}
+//@LEMMA C03 lemma_batch_core_perm what apply_tx_batch_impl guarantees for a batch (acceptance conditions and resulting state) holds for every duplicate-free ordering of the same transactions
+pub proof fn lemma_batch_core_perm<C: ContentAddrStore>(s: UnsealedState<C>, t1: Seq<Transaction>, t2: Seq<Transaction>, r: UnsealedState<C>, rel: Map<CoinID, CoinDataHeight>, ns: Map<TxHash, StakeDoc>)
+    requires t1.no_duplicates(), t2.no_duplicates(), forall|x: Transaction| t1.contains(x) <==> t2.contains(x), batch_core_with(s, t1, r, rel, ns)
+    ensures batch_core_with(s, t2, r, rel, ns)
+{
+    lemma_bcp_accept(s, t1, t2, r, rel, ns); lemma_bcp_result(s, t1, t2, r, rel, ns); lemma_bcp_rest(s, t1, t2, r, rel, ns);
 }
 
 // ---- C19 over more than one batch: a faucet's dedup marker, once written, survives every later batch, and a batch cannot contain a
